@@ -118,7 +118,33 @@ pub fn execute(s: &StatScn) -> RunOutcome {
             // the same batch, when processed before the placement): its position is the one nobody else took
             let mut same_step: Option<usize> = if n >= 3 && h.chance(0.3) { Some(h.usize(n - 1)) } else { None };
             let mut blind: Option<usize> = None; // index into items
+            // the trading switch flipped and flipped back in the middle of the submissions (a third of the steps): the flag
+            // that counts is the one at step time, and the order of processing has nothing to do with it
+            let flips: Option<(usize, usize)> = if n >= 3 && h.chance(0.33) {
+                let k1 = 1 + h.usize(n - 2);
+                let k2 = k1 + 1 + h.usize(n - 1 - k1);
+                Some((k1, k2))
+            } else {
+                None
+            };
             for (slot, is_cancel) in kinds.into_iter().enumerate() {
+                if let Some((k1, k2)) = flips {
+                    if slot == k1 {
+                        if halted_b {
+                            env_b.enable_trading()
+                        } else {
+                            env_b.disable_trading()
+                        }
+                        stats.probe("switch_flipped_mid_submission");
+                    }
+                    if slot == k2 {
+                        if halted_b {
+                            env_b.disable_trading()
+                        } else {
+                            env_b.enable_trading()
+                        }
+                    }
+                }
                 if let (Some(at), Some(&(a, id, false))) = (same_step, items.last()) {
                     if slot > at {
                         // aimed at the order submitted just before it
